@@ -7,6 +7,8 @@ import sys, os, re, glob, json, shutil, subprocess
 id_, m, breaks, needs = sys.argv[1:5]
 extra_props = sys.argv[5:] 
 src = f'/tmp/mut/{id_}/out'
+prop = id_[:3]
+seedname = f'{prop}-{m}' if id_ == prop else f'{prop}-{id_[3:]}{m}'
 line = None
 for f in sorted(glob.glob('/tmp/vseed_*.log')):
     for l in open(f):
@@ -17,7 +19,7 @@ if not line:
 ok = 'demo_on_base=pass' in line and ('suite=pass' in line) and 'demo_on_mutant=fail(good)' in line and 'build=ok' in line
 if not ok:
     sys.exit(f'NOT CONFIRMED: {line}')
-dst = f'/verif/seeded/{id_}-{m}'
+dst = f'/verif/seeded/{seedname}'
 os.makedirs(dst, exist_ok=True)
 shutil.copy(f'{src}/{m}.diff', f'{dst}/patch.diff')
 shutil.copy(f'{src}/{m}_demo_test.go', f'{dst}/demo_test.go.txt')
@@ -25,7 +27,7 @@ win = os.path.exists(f'{src}/{m}_window.diff')
 if win:
     shutil.copy(f'{src}/{m}_window.diff', f'{dst}/window.diff')
 # run checks
-props = [id_] + extra_props
+props = [prop] + extra_props
 out = subprocess.run(['/verif/tools/trymut.sh', f'{dst}/patch.diff'] + props, capture_output=True, text=True).stdout
 caught = {}
 cur = None
@@ -38,7 +40,7 @@ for l in out.splitlines():
     elif l.startswith('VIOLATED ') and cur:
         pass
 meta = {
-    'id': f'{id_}-{m}', 'property': id_, 'source': 'independent sub-agent given only the property text and a scratch worktree',
+    'id': seedname, 'property': prop, 'source': 'independent sub-agent given only the property text and a scratch worktree',
     'breaks': breaks, 'needs_to_manifest': needs,
     'window_patch_needed_for_demo': win,
     'confirmed_by_me': {'command': f'tools/verify_seed.sh {id_} {m} /tmp/mut/{id_}/out', 'result': line,
@@ -48,4 +50,4 @@ meta = {
     'files': {'patch.diff': 'git apply -able change to /repo', 'demo_test.go.txt': 'demonstration test (copy to the package directory as *_test.go to run)'},
 }
 json.dump(meta, open(f'{dst}/meta.json', 'w'), indent=1)
-print(id_, m, meta['checks_run'], {p: v[:2] for p, v in meta['caught_by'].items()})
+print(seedname, meta['checks_run'], {p: v[:2] for p, v in meta['caught_by'].items()})
